@@ -41,6 +41,40 @@ CLAIMED = {
         "DESIGN.md section 4, C12",
         "rigidity, handedness, bond direction and length as numbers, and the rotamer choice are numerical and not decided.",
     ),
+    "C15": (
+        "shape rules on the BFS generators + sibling comparison + call-site roles at the graph matcher",
+        "Decides the shapes whose failure is the classic slip: in both breadth-first generators the dequeue and the enqueue "
+        "act on opposite ends of the deque; every yield sits under `not in visited` together with visited.add and the "
+        "enqueue of the same atom, over the neighbours of the popped atom; seeds and distance arithmetic (popped + 1); the two "
+        "siblings are identical up to the distance component; GraphMatcher gets (self graph, pattern graph), the induced "
+        "iterator is used, the mapping is inverted, the Unknown wildcard is tested on the pattern side; the adjacency helpers "
+        "all reduce to one scan of the bond list; is_bond_in_ring searches from a1 through a2 for another neighbour of a1.",
+        "DESIGN.md section 4, C15",
+        "the full 'exactly the induced embeddings' and general ring perception are not decided; networkx trusted.",
+    ),
+    "C16": (
+        "effect discipline + pairing + interval coverage of the dispatch + formula ast + additive provenance",
+        "Decides that add_implicit_hydrogens changes the molecule only through add_atom(fresh H) / append_bond(fresh Bond) "
+        "(calls resolved through the effect summaries), never assigns attributes of existing atoms (the documented hint pop "
+        "excepted) and never operates in place on a view of the coordinates; that every fresh hydrogen is bonded exactly once "
+        "to the atom it was added for; that the dispatch on the count covers 1..4 and ends in an else that raises, and that an "
+        "atom without neighbours gets a defined direction; that the count is max(0, 4 - |4 - (valence electrons - charge - "
+        "|spin|)| - ceil(bonded valence)) with the hint taking precedence, groups 13..16 by default and VALENCE_ELECTRONS[g] = "
+        "g - 10; and that every new coordinate is the atom's position plus an offset scaled by L = r_cov(atom) + r_cov(H).",
+        "DESIGN.md section 4, C16",
+        "the direction, finiteness in degenerate geometry and idempotence are not decided.",
+    ),
+    "C19": (
+        "parameter-reaches-use + squared/plain unit rule on kernel results + token-level binding table",
+        "Narrow claim. Decides only: the cut-off parameter reaches the KD-tree bound and the mask in every branch of "
+        "nearest_atom_index and in prune (eps reaches the query); a *_eu2 kernel result is compared only with a squared "
+        "radius (and vice versa) and reduced over the atom axis; the conformer average uses the ensemble's weights exactly "
+        "when `weighted`; the m.def binding table of distance.cpp agrees with the naming scheme (rank, squared, width, both "
+        "widths for generic names); the three axes of rectangular_grid are computed alike with the centred full lattice. The "
+        "kernels' arithmetic and every numerical clause are NOT decided.",
+        "DESIGN.md section 4, C19",
+        "the C++ extension cannot be rebuilt or parsed here (no pybind11 headers); the prebuilt binary is assumed to correspond to distance.cpp.",
+    ),
     "C17": (
         "shared-descriptor store rule + runner shape on the ast/CFG + control dependence of the exit status",
         "Decides that Job.__get__ keeps no per-driver state on the descriptor shared by all driver instances (no store rooted at "
